@@ -285,7 +285,11 @@ def run(ch, config, res):
             with ch.scope("op#%d" % i):
                 op = draw_op(wl, mix)
         i += 1
-        before = str(st.fs)
+        try:
+            before = str(st.fs)
+        except Exception as e:
+            failure = Failure(PROP, "C12.agree", "before %r: the set can no longer be rendered: %s: %s" % (op, type(e).__name__, e), {})
+            break
         r = apply(st, op)
         if r is None:
             continue
@@ -305,7 +309,11 @@ def run(ch, config, res):
             nontrivial = True
         last = (op[0], mc)
         failure = check_state(st, op, before, rc, mc)
-    res.digest = hash64(str(st.fs), i)
+    try:
+        final_text = str(st.fs)
+    except Exception as e:      # only after an unsupported definition was accepted (the history stops there, without a verdict)
+        final_text = "render raised %s" % type(e).__name__
+    res.digest = hash64(final_text, i)
     res.digest = "%016x" % res.digest
     res.count("ops", i)
     names = st.model.names()
@@ -317,7 +325,7 @@ def run(ch, config, res):
         res.count("exhaustive_histories")
     if res.trace is not None:
         res.trace.append("ops: %r" % (ops if ops is not None else "(drawn, see tape)"))
-        res.trace.append(str(st.fs))
+        res.trace.append(final_text)
     res.failure = failure
 
 
